@@ -279,3 +279,10 @@ _R17 = {
 for _k, (_t, _l) in _R17.items():
     _a, _b, _c = CLAIMED[_k]
     CLAIMED[_k] = (_a + _t, _b + _l, _c)
+
+_R18 = {
+ "C10": ("; first row of the aligner against the gap cost of its recurrence (LPR)", ""),
+}
+for _k, (_t, _l) in _R18.items():
+    _a, _b, _c = CLAIMED[_k]
+    CLAIMED[_k] = (_a + _t, _b + _l, _c)
